@@ -212,6 +212,10 @@ fn run_block<V: Val>(
             if *m != "lm" && (cx.prop == "C12" || rng.chance(1, 2)) {
                 ev_search(t, h, &pma, m, "iter", hay, 0);
             }
+            // the haystack handed over by value in an owning container
+            if rng.chance(1, 2) {
+                ev_search(t, h, &pma, m, "owned", hay, 0);
+            }
         }
     }
     Some((h, pma))
@@ -335,7 +339,7 @@ fn fam_dict(t: &mut Tracer, rng: &mut Rng, cx: &Ctx) {
     let huge = cx.thorough && rng.chance(1, 12);
     let np = if huge { rng.range(1600, 2200) } else if cx.thorough { rng.range(200, 600) } else { rng.range(80, 220) };
     // huge: more than 16 blocks, so that blocks are closed under the default num_free_blocks
-    let nfb = if huge { 16 } else { *rng.pick(&[1u32, 1, 2, 3]) };
+    let nfb = if huge { 16 } else { *rng.pick(&[1u32, 1, 2, 3, 16, 16]) };
     let var = if huge { Var::B } else { var };
     dict_typed::<u32>(t, rng, cx, var, kind, np, nfb);
 }
@@ -414,7 +418,7 @@ fn fam_wide(t: &mut Tracer, rng: &mut Rng, cx: &Ctx) {
         extra: vec![base + universe + 1],
     };
     let hays: Vec<Rc<Vec<u8>>> = (0..3).map(|_| Rc::new(gen_haystack(rng, var, &alpha, 40, &pats[..pats.len().min(40)]))).collect();
-    let mut nfbs: Vec<u32> = if cx.prop == "C11" { if cx.thorough { vec![16, 1, 2, 3] } else { vec![16, 2] } } else { vec![*rng.pick(&[1u32, 2, 2, 3, 4])] };
+    let mut nfbs: Vec<u32> = if cx.prop == "C11" { if cx.thorough { vec![16, 1, 2, 3] } else { vec![16, 2] } } else { vec![*rng.pick(&[1u32, 2, 2, 3, 4, 16])] };
     if cx.prop == "C11" && cx.thorough {
         nfbs.push(rng.range(4, 15) as u32);
     }
@@ -422,6 +426,55 @@ fn fam_wide(t: &mut Tracer, rng: &mut Rng, cx: &Ctx) {
         let spec = BuildSpec { var, kind, entry: "new", via_builder: true, nfb, pats: pats.clone() };
         run_block::<u32>(t, rng, cx, &spec, &[], &hays, &[], false);
     }
+}
+
+/// Long chains of single-child states: they pack the first blocks completely (no vacant slot is
+/// left in block 0), give many states the same small BASE values, and keep every block active
+/// under the default num_free_blocks.
+fn fam_chain(t: &mut Tracer, rng: &mut Rng, cx: &Ctx) {
+    let var = if cx.prop == "C08" || rng.chance(1, 4) { Var::C } else { Var::B };
+    let base: u32 = if var == Var::C { *rng.pick(&[0u32, 0, 0x61, 0x4e00]) } else { 0 };
+    let k = rng.range(2, 6) as u32;
+    // labels 1..k (0x00 / the first character only in the short patterns below)
+    let alpha: Vec<u32> = (1..=k).map(|x| base + x).collect();
+    let nlong = rng.range(1, 3);
+    let mut pats: Vec<Pat> = vec![];
+    for _ in 0..nlong {
+        let n = if cx.thorough { rng.range(300, 900) } else { rng.range(260, 620) };
+        pats.push((0..n).map(|_| *rng.pick(&alpha)).collect());
+    }
+    pats.push(vec![base]);
+    if rng.chance(1, 2) {
+        pats.push(vec![base, alpha[0]]);
+    }
+    for _ in 0..rng.range(0, 4) {
+        let l = rng.range(1, 3);
+        let p: Pat = (0..l).map(|_| *rng.pick(&alpha)).collect();
+        if !pats.contains(&p) {
+            pats.push(p);
+        }
+    }
+    rng.shuffle(&mut pats);
+    let kind = *rng.pick(&kinds_for(cx.prop));
+    let nfb = *rng.pick(&[16u32, 16, 16, 2, 3, 64]);
+    let spec = BuildSpec { var, kind, entry: "new", via_builder: true, nfb, pats };
+    let ha = Alpha { pat: alpha.iter().copied().chain([base]).collect(), extra: vec![base + 40] };
+    let hays: Vec<Rc<Vec<u8>>> = (0..3)
+        .map(|_| Rc::new(gen_haystack(rng, var, &ha, 30, &spec.pats.iter().filter(|p| p.len() < 10).cloned().collect::<Vec<_>>())))
+        .collect();
+    if cx.prop == "C08" && var == Var::C {
+        let twin = BuildSpec {
+            var: Var::B,
+            pats: spec.pats.iter().map(|p| pat_bytes(Var::C, p).iter().map(|&b| u32::from(b)).collect()).collect(),
+            ..spec.clone()
+        };
+        run_block::<u32>(t, rng, cx, &twin, &[], &hays, &[], false);
+    }
+    if cx.prop == "C11" {
+        let twin = BuildSpec { nfb: 16, ..spec.clone() };
+        run_block::<u32>(t, rng, cx, &twin, &[], &hays, &[], false);
+    }
+    run_block::<u32>(t, rng, cx, &spec, &[], &hays, &[], false);
 }
 
 /// C10: collections with defects injected at random positions
@@ -716,7 +769,7 @@ fn fam_shadow(t: &mut Tracer, rng: &mut Rng, cx: &Ctx) {
 /// range of u8 (quick) / u16 (thorough): a truncated or wrapped index becomes visible
 fn fam_bigindex(t: &mut Tracer, rng: &mut Rng, cx: &Ctx) {
     let var = if rng.chance(1, 2) { Var::C } else { Var::B };
-    let n: usize = if cx.thorough && rng.chance(1, 2) { 66_000 + rng.below(3000) } else { rng.range(300, 700) };
+    let n: usize = if rng.chance(1, if cx.thorough { 2 } else { 4 }) { 66_000 + rng.below(3000) } else { rng.range(300, 700) };
     let k: u32 = if n > 60_000 { 260 } else { 30 };
     let base: u32 = if var == Var::C { 0x4e00 } else { 0 };
     let sym = |d: u32| -> u32 { if var == Var::B { d % 256 } else { base + d } };
@@ -832,19 +885,22 @@ fn fam_values(t: &mut Tracer, rng: &mut Rng, cx: &Ctx, i: u64) {
 pub fn family_of(prop: &str, i: u64) -> &'static str {
     match prop {
         "C01" | "C02" | "C03" | "C05" | "C08" | "C13" => match i % 12 {
-            11 => "dict",
+            11 | 3 => "dict",
             5 => "wide",
+            8 => "chain",
             _ => "small",
         },
         "C04" | "C15" => match i % 12 {
             11 => "dict",
             4 => "wide",
+            8 => "chain",
             2 | 6 | 9 => "shadow",
             _ => "small",
         },
         "C06" => match i % 16 {
             15 | 3 => "dict",
             5 => "wide",
+            9 => "chain",
             7 => "bigindex",
             11 => "longpat",
             _ => "values",
@@ -859,6 +915,7 @@ pub fn family_of(prop: &str, i: u64) -> &'static str {
         "C07" => match i % 12 {
             11 => "dict",
             10 => "wide",
+            8 => "chain",
             3 | 7 => "decode",
             1 | 5 | 9 => "shadow",
             _ => "small",
@@ -873,6 +930,7 @@ pub fn family_of(prop: &str, i: u64) -> &'static str {
         "C11" => match i % 8 {
             3 | 7 => "nfb",
             5 => "wide",
+            1 => "chain",
             _ => "small",
         },
         "C12" => match i % 3 {
@@ -916,6 +974,7 @@ pub fn run_scenario(t: &mut Tracer, prop: &str, thorough: bool, seed: u64, i: u6
         "shadow" => fam_shadow(t, &mut rng, &cx),
         "bigindex" => fam_bigindex(t, &mut rng, &cx),
         "wide" => fam_wide(t, &mut rng, &cx),
+        "chain" => fam_chain(t, &mut rng, &cx),
         "longpat" => fam_longpat(t, &mut rng, &cx),
         "values" => fam_values(t, &mut rng, &cx, i),
         other => panic!("harness: unknown family {other}"),
